@@ -8,9 +8,11 @@ import contextvars
 import json
 import logging
 import random
+import shutil
 import sqlite3
 import time
 from datetime import UTC, datetime
+from pathlib import Path
 from typing import Any
 
 from vf import dbharness as dh
@@ -29,7 +31,12 @@ TECHNIQUE = (
     "systematic cancellation: every task of a clock-free multi-task history (callers and the real cyclic tester present worker on one ECU object) "
     "is driven through a coroutine wrapper that counts its suspension points, and the history is re-run with one task cancelled at each of them; "
     "environment variation: a second sqlite connection holds a real write transaction on the database file while the handler is closed; "
-    "usage variation: one DBHandler object is connected, used and disconnected several times, in one event loop and in successive event loops"
+    "usage variation: one DBHandler object is connected, used and disconnected several times, in one event loop and in successive event loops; "
+    "environment variation: the database file exists already - a committed fixture written once by the unchanged DBHandler of /repo (schema 4.0, one run "
+    "with eight rows; tools/make_c11_fixture.py) - and the run is appended to a copy of it; usage variation: the caller re-assigns the public attributes of "
+    "the request / response object (and the pdu of the raw kinds) right after request() came back, while the row may still be queued or retried; "
+    "bursts of several hundred to a few thousand exchanges whose rows all wait behind a foreign write transaction, with the driving task watched "
+    "through a coroutine wrapper and cancelled the moment it is found suspended behind its own exchange (request written, client not inside a transport call)"
 )
 LEVEL_TEXT = (
     "Exploration: generated histories of 1..25 exchanges (every request kind of the codec generators, raw requests, replies of every "
@@ -56,7 +63,18 @@ LEVEL_TEXT = (
     "sessions - connect, a history of the first family (ending normally, cancelled or failing), disconnect - where a later session runs in the same "
     "event loop as the one before or in a fresh one (a synchronous driver calling asyncio.run() per session; connect and disconnect of a session always "
     "in the same loop) and goes on with the scan run or starts a new one; every session is judged on the rows that came with it, and the rows of "
-    "earlier sessions must stay. Held = every row set read back matched its wire log."
+    "earlier sessions must stay. "
+    "Three dimensions run through these families. (a) Pre-existing database: 30 % of the histories of the first, third, sixth and seventh family open a copy "
+    "of fixtures/c11-schema-4.0.sqlite - the file an earlier run of the released code left behind - instead of creating a new file: the eight rows of the "
+    "earlier run must be unchanged afterwards and the history is judged on the rows that came with it. (b) Caller edits: after 36 % of the exchanges the "
+    "caller re-assigns every public attribute of the response object it was handed (also the one carried by the exception), of the request object, or of "
+    "both, immediately after request() returned or raised - the row may still be in the queue, or (third family) be retried by the writer afterwards; the "
+    "stored bytes must be the bytes on the wire. (c) Bursts (sixth family): 4 (thorough: 16) histories of 200..3200 (thorough: ..6500) quick exchanges while "
+    "the foreign write transaction lasts until 0.3 s after disconnect() was called, so that the rows of the whole burst are waiting when the run ends "
+    "normally, is cancelled between two exchanges or while the last request awaits its reply; in the sixth family the driving task is cancelled at once if it "
+    "is ever found waiting for something while it is inside request(), its request has been written and the client is not inside a transport call - a "
+    "request cancelled there after the transport had delivered its final reply was a complete exchange and must have its row. "
+    "Held = every row set read back matched its wire log."
 )
 LEVEL_NOTE = (
     "Trusted: scripted transport vf/dbharness.py (wire log), request generators vf/gen_uds.py, response generators vf/checks/c02.py / "
@@ -75,11 +93,16 @@ RULE = (
     "Foreign write transaction: histories of the first family (crash points included) x exchange before which the other connection begins its write "
     "transaction (at least two logged exchanges complete after it) x duration of that transaction as a fraction of the handler's own busy timeout "
     "(every fraction of the list is required with several rows waiting). Handler used again: 2..3 sessions per handler object x history per session x "
-    "same / fresh event loop x same / new scan run x how the session before ended (normally, cancelled, failed: all three required)"
+    "same / fresh event loop x same / new scan run x how the session before ended (normally, cancelled, failed: all three required). "
+    "Pre-existing database: a flag per history (own generator, 30 %), required with all three ways a run can end; caller edits: a choice per exchange (own "
+    "generator: response 18 %, both 12 %, request 6 %), rows compared after an edit are counted, also those the writer had to retry after the edit; bursts: "
+    "size class x way the run ends, required with more than 1000 and more than 2000 rows waiting and cancelled with more than 1000 rows waiting"
 )
 ASSUMPTIONS = [
     "a request() whose write was attempted counts as put on the wire; retries belong to their exchange (one row, final outcome)",
-    "the exchange interrupted by cancellation is not 'completed': its row is optional (if present it must be the last one and carry the request bytes)",
+    "the exchange interrupted by cancellation is not 'completed': its row is optional (if present it must be the last one and carry the request bytes); "
+    "a request() cancelled after the transport had handed its final reply (not ResponsePending, not busy) to the client was a complete exchange: its row is "
+    "required (presence and position are judged, its other columns are not - the caller never saw an outcome)",
     "client back-off sleeps are set to zero (ECU.retry_wait = 0) and read timeouts are immediate: the monitor runs on a real event loop",
     "the exception column is compared with repr() of the exception request() raised",
     "a reply that is recorded (response_pdu not NULL) is expected to carry a receive time",
@@ -87,7 +110,18 @@ ASSUMPTIONS = [
     "reports a lock only after its busy timeout); a row the writer had to retry may get a later id than rows sent after it (the unchanged "
     "writer re-queues it at the end: counted as writer-fault.order-changed), so with retried rows transmission order is judged on request_time, "
     "and on ids only among rows that were not retried",
-    "a disconnect() that does not return within 60 s wall clock is reported as a harness error (INCONCLUSIVE), not as a violation",
+    "a disconnect() that does not return within 60 s wall clock is reported as a harness error (INCONCLUSIVE), not as a violation - unless there is "
+    "evidence that waiting cannot help: the handler's writer task has ended (5 s grace), or the writer has attempted more than 8 x rows + 64 INSERTs "
+    "(counted at the connection object) for the rows of the history while no fault is injected; the connection is then closed by force and the file judged as it is",
+    "pre-existing database: the fixture is a file the unchanged tree of /repo wrote (same schema version as the tree under test announces); a tree whose "
+    "connect() refuses the file with an error is not judged on it (counted; the reach requirements of the dimension then fail)",
+    "caller edits: re-assigning public attributes of request / response objects and the pdu of RawRequest / RawResponse objects (which has a setter) is "
+    "legal use of objects the caller owns; the edit happens before the caller reaches its next suspension point; repr() of the exception for the exception "
+    "column is taken when request() raises, before the edit",
+    "bursts: PRAGMA synchronous=OFF on the handler's connection (as for the concurrent-cancel family); the foreign transaction of a burst is not timed, it ends "
+    "0.3 s after disconnect() was called; if the run takes longer than the handler's busy timeout the writer may have to retry (then judged as under writer faults)",
+    "writer faults: a row is followed through its retries by the identity of the parameter tuple handed to the connection, and - for a writer that builds the "
+    "tuple anew - by equal content, failing that by equal run, send time and request bytes",
     "scanner runs: gallia.plugins.plugin.load_transport and gallia.command.uds.load_ecu are replaced by harness loaders (in-process transport; "
     "ECU subclass whose properties() sends ReadDataByIdentifier requests); whether logging was wanted for a request is the harness scanner's "
     "own note at the time the transport saw the write and the read; a request in flight while the preference changes may or may not have a row; "
@@ -122,12 +156,12 @@ def shards(tier: str, seed: int) -> list[dict[str, Any]]:
         return ([{"mode": "hist", "base": f"q{seed}-{i}", "n": 260} for i in range(12)] + [{"mode": "conc", "base": f"qc{seed}-{i}", "n": 60} for i in range(2)]
                 + [{"mode": "wf", "base": f"qw{seed}-{i}", "n": 100} for i in range(4)] + [{"mode": "scan", "base": f"qs{seed}-{i}", "n": 12} for i in range(2)]
                 + [{"mode": "cc", "base": f"qx{seed}-{i}", "n": 50} for i in range(2)]
-                + [{"mode": "lock", "base": f"ql{seed}-{i}", "n": 24, "wave": 24} for i in range(1)]
+                + [{"mode": "lock", "base": f"ql{seed}-{i}", "n": 24, "wave": 24, "burst": 4} for i in range(1)]
                 + [{"mode": "reuse", "base": f"qr{seed}-{i}", "n": 80} for i in range(2)])
     return ([{"mode": "hist", "base": f"t{seed}-{i}", "n": 3000} for i in range(14)] + [{"mode": "conc", "base": f"tc{seed}-{i}", "n": 1000} for i in range(2)]
             + [{"mode": "wf", "base": f"tw{seed}-{i}", "n": 3000} for i in range(4)] + [{"mode": "scan", "base": f"ts{seed}-{i}", "n": 160} for i in range(2)]
             + [{"mode": "cc", "base": f"tx{seed}-{i}", "n": 600} for i in range(4)]
-            + [{"mode": "lock", "base": f"tl{seed}-{i}", "n": 84, "wave": 28} for i in range(2)]
+            + [{"mode": "lock", "base": f"tl{seed}-{i}", "n": 84, "wave": 28, "burst": 8} for i in range(2)]
             + [{"mode": "reuse", "base": f"tr{seed}-{i}", "n": 800} for i in range(2)])
 
 
@@ -173,6 +207,16 @@ def required_reach(tier: str) -> dict[str, int]:
         "#reuse.later-session.after:": 3, "reuse.later-session.continue-scan-run": 40 * k, "reuse.later-session.new-scan-run": 20 * k,
         "reuse.later-session.rows-compared.fresh-event-loop": 300 * k, "reuse.later-session.rows-compared.same-event-loop": 80 * k,
         "reuse.third-session": 15 * k,
+        # the database file exists already: written by an earlier run of the released code (fixtures/c11-schema-4.0.sqlite), the run is appended
+        "pre-existing-database.histories": 500 * k, "pre-existing-database.rows-compared": 1500 * k, "pre-existing-database.rows-of-the-earlier-run-kept": 2000 * k,
+        "#pre-existing-database.session-": 3,
+        # the caller re-assigns attributes of the request / response object right after request() came back
+        "caller-edit.rows-compared": 1500 * k, "caller-edit.rows-compared.response-object-edited": 800 * k, "caller-edit.rows-compared.request-object-edited": 500 * k,
+        "caller-edit.rows-compared.row-retried-by-the-writer-after-the-edit": 30 * k,
+        # bursts that outrun the writer (rows of the whole burst waiting behind a foreign write transaction when the run ends)
+        "foreign-lock.burst.histories": 3 if tier == "quick" else 12, "foreign-lock.burst.more-than-1000-rows-waiting-when-the-run-ended": 2 if tier == "quick" else 8,
+        "foreign-lock.burst.more-than-2000-rows-waiting-when-the-run-ended": 1 if tier == "quick" else 3,
+        "foreign-lock.burst.cancelled-with-more-than-1000-rows-waiting": 2 if tier == "quick" else 6,
     }
 
 
@@ -183,10 +227,91 @@ def lock_fractions(tier: str) -> list[float]:
 
 # ---- generation ------------------------------------------------------------------------------------
 class Ex:
-    __slots__ = ("req", "cls", "events", "tag", "implicit", "cfg_retry")
+    __slots__ = ("req", "cls", "events", "tag", "implicit", "cfg_retry", "edit")
 
     def __init__(self, req: Any, cls: str, events: list[tuple[Any, ...]], tag: str | None, implicit: bool, cfg_retry: int | None):
         self.req, self.cls, self.events, self.tag, self.implicit, self.cfg_retry = req, cls, events, tag, implicit, cfg_retry
+        self.edit = ""  # what the caller does with its objects right after request() came back: "" | "response" | "request" | "both"
+
+
+# ---- usage variation: the caller goes on working with the objects of an exchange that is over --------------------------------
+def other_value(v: Any) -> Any:
+    """another value of the same type (what a caller does: strips padding, appends, flips a flag, clears a record)"""
+    import enum
+
+    if isinstance(v, (bytes, bytearray)):
+        return bytes(v[:-1]) if len(v) > 1 else bytes(v) + b"\x55"
+    if isinstance(v, bool):
+        return not v
+    if isinstance(v, enum.Enum):
+        members = list(type(v))
+        return members[(members.index(v) + 1) % len(members)]
+    if isinstance(v, int):
+        return v ^ 1
+    if isinstance(v, str):
+        return v + "x"
+    if isinstance(v, list):
+        return v[:-1] if len(v) > 1 else v + v
+    if isinstance(v, dict) and v:
+        return {}
+    return v
+
+
+def scribble(obj: Any) -> int:
+    """Re-assigns every public attribute of a request / response object the caller owns (and the pdu of the raw kinds, which has a
+    setter) to another value of the same type.  -> number of assignments that took effect"""
+    from gallia.services.uds.core import service
+
+    n = 0
+    if isinstance(obj, (service.RawRequest, service.RawResponse)):
+        p = bytes(obj.pdu)
+        new_pdu = p.rstrip(p[-1:]) + b"\xee" if len(p) > 1 else p + b"\xee"
+        obj.pdu = new_pdu if new_pdu != p else p + b"\xee"
+        n += 1
+    for k, v in list(vars(obj).items()):
+        if k.startswith("_") or k == "trigger_request":
+            continue
+        new = other_value(v)
+        if new is v or (type(new) is type(v) and new == v):
+            continue
+        try:
+            setattr(obj, k, new)
+            n += 1
+        except Exception:  # noqa: BLE001  (an attribute without setter: nothing the caller can do to it)
+            pass
+    return n
+
+
+def plan_edits(exs: list[Ex], hseed: str) -> None:
+    """which exchanges of a history are followed by such an edit (a generator of its own: the histories themselves stay as they were)"""
+    rng = random.Random("edit/" + hseed)
+    for ex in exs:
+        k = rng.random()
+        ex.edit = "response" if k < 0.18 else "both" if k < 0.30 else "request" if k < 0.36 else ""
+
+
+# ---- environment variation: the database file exists already, an earlier run of the released code created it -----------------
+FIXTURE = Path(__file__).resolve().parent.parent.parent / "fixtures" / "c11-schema-4.0.sqlite"  # built once by tools/make_c11_fixture.py from /repo
+_fixture_rows: list[list[dict[str, Any]]] = []
+
+
+def fixture_rows() -> list[dict[str, Any]]:
+    if not _fixture_rows:
+        if not FIXTURE.exists():
+            raise RuntimeError(f"{FIXTURE} is missing (tools/make_c11_fixture.py builds it from the unchanged tree)")
+        _fixture_rows.append(dh.read_rows(FIXTURE))
+    return _fixture_rows[0]
+
+
+def plant_fixture(path: Any) -> list[dict[str, Any]]:
+    """the history's database file starts as a copy of the earlier run's file; -> the rows that are in it"""
+    rows = fixture_rows()
+    shutil.copyfile(FIXTURE, path)
+    return rows
+
+
+def wants_fixture(hseed: str) -> bool:
+    return random.Random("pre/" + hseed).random() < 0.3
 
 
 def build_request(rng: random.Random) -> tuple[Any, str, bytes, bytes | None]:
@@ -346,7 +471,8 @@ def gen_history(hseed: str) -> dict[str, Any]:
         k = rng.randrange(n)
         exs[k].events = [("X",)]
         crash = ("raise-mid", k)
-    return {"hseed": hseed, "max_retry": max_retry, "ex": exs, "crash": crash}
+    plan_edits(exs, hseed)
+    return {"hseed": hseed, "max_retry": max_retry, "ex": exs, "crash": crash, "pre": wants_fixture(hseed)}
 
 
 def gen_wf_history(hseed: str) -> dict[str, Any]:
@@ -387,7 +513,8 @@ def gen_wf_history(hseed: str) -> dict[str, Any]:
     pk = rng.random()
     pace = [("none" if pk < 0.5 else "drain" if pk < 0.7 else rng.choice(["none", "drain", "yield-1", "yield-3"])) for _ in range(max(0, n - 1))]
     wf = {"plan": plan, "yields": rng.choice([1, 1, 1, 2, 3]), "pause": rng.choice([0.0, 0.0, 0.0, 0.0, 0.001]), "close": close, "pace": pace}
-    return {"hseed": hseed, "max_retry": max_retry, "ex": exs, "crash": ("none",), "wf": wf}
+    plan_edits(exs, "wf/" + hseed)
+    return {"hseed": hseed, "max_retry": max_retry, "ex": exs, "crash": ("none",), "wf": wf, "pre": wants_fixture("wf/" + hseed)}
 
 
 def make_cfg(ex: Ex) -> Any:
@@ -417,6 +544,11 @@ def shadow_apply(state: dict[str, Any], reply: bytes | None) -> dict[str, Any]:
     return s
 
 
+def have_reply(o: Any) -> bool:
+    """request() handed a response object to the caller (returned it, or raised an exception that carries it)"""
+    return o.result is not None and (o.result[0] == "ok" or (o.result[0] == "exc" and getattr(o.result[1], "response", None) is not None))
+
+
 def final_reply(wire: list[tuple[Any, ...]], q0: int) -> bytes | None:
     """the reply that ended the exchange according to the wire log: the last thing a read delivered, unless that was a
     fault, the end of the stream or a further ResponsePending"""
@@ -437,15 +569,155 @@ class Obs:
         self.result: tuple[Any, ...] | None = None
         self.lost: list[str] = []
         self.after: dict[str, Any] = {}
+        self.rep = ""  # repr() of what request() returned / raised, taken before the caller touches the objects
+        self.edited = 0  # assignments the caller made to the request / response object after request() came back
 
 
 class Boom(Exception):
     pass
 
 
+class Wire11(dh.WireTransport, scheme="vfwire11"):  # type: ignore[call-arg,misc]
+    """the scripted transport, which also says whether the client is inside one of its calls right now"""
+
+    def __init__(self) -> None:
+        super().__init__()
+        self.inside = 0
+
+    async def write(self, data: bytes, timeout: float | None = None, tags: list[str] | None = None) -> int:
+        self.inside += 1
+        try:
+            return await super().write(data, timeout, tags)
+        finally:
+            self.inside -= 1
+
+    async def read(self, timeout: float | None = None, tags: list[str] | None = None) -> bytes:
+        self.inside += 1
+        try:
+            return await super().read(timeout, tags)
+        finally:
+            self.inside -= 1
+
+
+class Watched(collections.abc.Coroutine):  # type: ignore[type-arg]
+    """Stands between a task and its coroutine (as Stepped below, without the bookkeeping): after every step that ends in a
+    suspension, `on_suspend(what the task waits for)` is called - a future, or None for a bare scheduling point."""
+
+    def __init__(self, coro: Any, on_suspend: Any) -> None:
+        self.coro, self.on_suspend = coro, on_suspend
+
+    def send(self, value: Any) -> Any:
+        y = self.coro.send(value)
+        self.on_suspend(y)
+        return y
+
+    def throw(self, *a: Any) -> Any:
+        y = self.coro.throw(*a)
+        self.on_suspend(y)
+        return y
+
+    def close(self) -> None:
+        self.coro.close()
+
+    def __await__(self) -> Any:
+        return self.coro.__await__()
+
+    def __getattr__(self, name: str) -> Any:
+        return getattr(self.coro, name)
+
+
+class InsertWatch:
+    """Counts the INSERTs into scan_result that reach the handler's sqlite connection (wrapper around the connection object's
+    execute, an instance attribute: gallia's code is not touched, nothing is delayed or failed)."""
+
+    def __init__(self) -> None:
+        self.attempts = 0
+
+    def install(self, handler: Any) -> None:
+        conn = handler.connection
+        assert conn is not None
+        orig = conn.execute
+
+        def execute(sql: Any, parameters: Any = None) -> Any:
+            if isinstance(sql, str) and sql.startswith(dh.WriterFaults.INSERT):
+                self.attempts += 1
+            return orig(sql, parameters)
+
+        conn.execute = execute
+
+
+def retry_limit(rows: int) -> int:
+    """INSERT attempts after which a disconnect() that still has not returned is given up: far more than any contention the
+    harness creates can cause (a foreign transaction that outlasts the busy timeout costs a row one or two retries)"""
+    return 8 * rows + 64
+
+
+class WriterFaults11(dh.WriterFaults):
+    """dh.WriterFaults follows a row through its retries by the identity of its parameter tuple.  A writer may as well build the
+    tuple anew for every attempt: a tuple that was not seen before is taken for the retry of a row whose last attempt failed if it
+    has the same content (failing that: the same run, send time and request bytes), and only otherwise for a new row.  Every tuple
+    seen is kept alive, so identities are never reused."""
+
+    def __init__(self, plan: dict[Any, int], yields: int = 1, pause: float = 0.0) -> None:
+        super().__init__(plan, yields, pause)
+        self._keep: list[Any] = []
+        self._awaiting_retry: set[int] = set()
+        self.rebuilt = 0
+
+    def install(self, handler: Any) -> None:
+        import aiosqlite
+
+        conn = handler.connection
+        assert conn is not None
+        orig = conn.execute
+
+        async def locked() -> Any:
+            for _ in range(self.yields):
+                await asyncio.sleep(0)
+            if self.pause:
+                await asyncio.sleep(self.pause)
+            raise aiosqlite.OperationalError("database is locked")
+
+        def key(p: tuple[Any, ...]) -> Any:
+            return (p[0], p[3], p[2]) if len(p) > 3 else p
+
+        def ordinal(parameters: tuple[Any, ...]) -> int:
+            n = self._ordinal.get(id(parameters))
+            if n is not None:
+                return n
+            self._keep.append(parameters)
+            for same in (lambda m: self.rows[m] == parameters, lambda m: key(self.rows[m]) == key(parameters)):
+                for m in sorted(self._awaiting_retry):
+                    if same(m):
+                        self._ordinal[id(parameters)] = m
+                        self.rebuilt += 1
+                        return m
+            n = len(self.rows)
+            self.rows.append(parameters)
+            self._ordinal[id(parameters)] = n
+            return n
+
+        def execute(sql: Any, parameters: Any = None) -> Any:
+            if isinstance(sql, str) and sql.startswith(self.INSERT) and isinstance(parameters, tuple):
+                n = ordinal(parameters)
+                q = handler._execute_queue
+                behind = q.qsize() if q is not None else -1
+                if self.left.get(n, 0) > 0:
+                    self.left[n] -= 1
+                    self.attempts.append([n, "fail", self.closing, behind])
+                    self._awaiting_retry.add(n)
+                    return locked()
+                self.attempts.append([n, "pass", self.closing, behind])
+                self._awaiting_retry.discard(n)
+            return orig(sql, parameters)
+
+        conn.execute = execute
+
+
 # ---- usage variations: a foreign write transaction while the handler is closed; one handler object used again -------------
 _HIST: contextvars.ContextVar[Any] = contextvars.ContextVar("c11_history_view", default=None)
 WRITER_ENDED_GRACE_S = 5.0  # wall clock; see close_watching_writer
+_writer_ended = [0]  # disconnect() calls of this process that were given up because the writer task had ended
 
 
 class HistView:
@@ -489,9 +761,10 @@ def install_split_handler() -> None:
 
 class ForeignWriter:
     """Another user of the same database file (a second gallia process, a database browser): its own sqlite3 connection which
-    opens a write transaction (BEGIN IMMEDIATE), keeps it for `hold_s` seconds of real time and rolls it back."""
+    opens a write transaction (BEGIN IMMEDIATE), keeps it for `hold_s` seconds of real time and rolls it back (hold_s None: keeps it
+    until end() is called)."""
 
-    def __init__(self, path: Any, hold_s: float) -> None:
+    def __init__(self, path: Any, hold_s: float | None) -> None:
         self.path, self.hold_s = path, hold_s
         self.con: sqlite3.Connection | None = None
         self.t0: float | None = None
@@ -510,7 +783,8 @@ class ForeignWriter:
 
         self.con = await asyncio.to_thread(work)  # may have to wait a moment for the handler's writer: not on the loop's thread
         self.t0 = time.monotonic()
-        self.timer = asyncio.get_running_loop().call_later(self.hold_s, self.end)
+        if self.hold_s is not None:
+            self.timer = asyncio.get_running_loop().call_later(self.hold_s, self.end)
 
     def end(self) -> None:
         if self.timer is not None:
@@ -554,11 +828,14 @@ async def reopen(handler: Any, spec: dict[str, Any]) -> None:
         raise
 
 
-async def close_watching_writer(handler: Any) -> bool:
-    """disconnect() as entry_point's finally does.  -> True if it was given up: the handler's writer task had ended and
+async def close_watching_writer(handler: Any, watch: Any = None, rows: int = 0) -> str | None:
+    """disconnect() as entry_point's finally does.  -> the reason if it was given up (else None): the handler's writer task had ended and
     disconnect() still had not returned WRITER_ENDED_GRACE_S later (after the writer has ended, all that is left to do is commit
     and close).  A writer task that has ended cannot write the rows that are still queued, however long one waits, so the file
-    is then closed by force and judged as it is.  With a writer that is still alive the wall-clock guard applies as elsewhere."""
+    is then closed by force and judged as it is.  With a writer that is still alive a count applies: it has attempted more than
+    retry_limit(rows) INSERTs for `rows` rows and disconnect() is still waiting - a writer that tries the same rows again and again
+    although nobody else holds the database will not finish either (a count, not a time).  Otherwise the wall-clock guard applies as
+    elsewhere.  (From the third given-up disconnect() of a process on, the grace after the writer's end is 1 s.)"""
     writer = getattr(handler, "_executor_task", None)
     t = asyncio.ensure_future(handler.disconnect())
     t0 = time.monotonic()
@@ -568,15 +845,23 @@ async def close_watching_writer(handler: Any) -> bool:
             done, _ = await asyncio.wait({t}, timeout=0.1)
             if done:
                 t.result()
-                return False
+                return None
             now = time.monotonic()
             if writer is not None and writer.done():
                 ended_at = now if ended_at is None else ended_at
-                if now - ended_at > WRITER_ENDED_GRACE_S:
+                grace = WRITER_ENDED_GRACE_S if _writer_ended[0] < 2 else 1.0
+                if now - ended_at > grace:
+                    _writer_ended[0] += 1
                     t.cancel()
                     await asyncio.gather(t, return_exceptions=True)
                     await dh.force_close(handler)
-                    return True
+                    return f"disconnect() had not returned {grace:.0f} s after the handler's writer task ended: closed by force"
+            if watch is not None and watch.attempts > retry_limit(rows):
+                n = watch.attempts
+                t.cancel()
+                await asyncio.gather(t, return_exceptions=True)
+                await dh.force_close(handler)
+                return f"disconnect() had not returned after the writer attempted {n} INSERTs for {rows} row(s): closed by force"
             if now - t0 > DISCONNECT_GUARD_S:
                 raise TimeoutError(f"disconnect() did not return within {DISCONNECT_GUARD_S}s and the writer task is alive")
     except BaseException:
@@ -590,10 +875,29 @@ async def close_watching_writer(handler: Any) -> bool:
 async def run_history(ctx: Any, spec: dict[str, Any], path: Any, catch: Any, handler: Any = None, st: dict[str, Any] | None = None) -> str:
     sess: dict[str, Any] | None = spec.get("reuse")
     lockp: dict[str, Any] | None = spec.get("lock")
+    burst: dict[str, Any] | None = spec.get("burst")
+    earlier: list[dict[str, Any]] = []  # rows that were in the file before this handler was connected
     if handler is None:
-        handler = await dh.open_handler(path, "vf://c11/" + spec["hseed"])
+        if spec.get("pre"):
+            earlier = plant_fixture(path)  # the run is appended to the database an earlier run of the released code left behind
+        try:
+            handler = await dh.open_handler(path, "vf://c11/" + spec["hseed"])
+        except dh.HandlerStep as e:
+            if earlier and e.step == "connect" and e.kind == "raises":
+                # a tree that refuses the older file outright has no database configured: nothing to judge (and the reach
+                # requirements of this dimension then say that the fixture no longer fits the tree)
+                ctx.reach("pre-existing-database.refused-by-connect")
+                return "refused"
+            raise
     else:
         await reopen(handler, spec)
+    watch: InsertWatch | None = None
+    if spec.get("wf") is None:
+        watch = InsertWatch()
+        watch.install(handler)
+    if burst is not None:
+        # harness configuration, as for the concurrent-cancel family: thousands of rows, each committed on its own; no fsync per commit
+        await dh.guarded(handler.connection.execute("PRAGMA synchronous = OFF"), "connection.execute")
     fw: ForeignWriter | None = None
     lock_obs: dict[str, Any] = {}
 
@@ -602,11 +906,11 @@ async def run_history(ctx: Any, spec: dict[str, Any], path: Any, catch: Any, han
         if lockp is None or fw is not None:
             return
         busy = await busy_timeout_s(handler)
-        fw = ForeignWriter(path, lockp["frac"] * busy)
+        fw = ForeignWriter(path, lockp["frac"] * busy if lockp["frac"] is not None else None)
         lock_obs.update({"busy_timeout_s": busy, "hold_s": fw.hold_s, "taken_before_exchange": len(obs)})
         await fw.begin()
 
-    tr = dh.WireTransport()
+    tr = Wire11()
     ecu = dh.make_ecu(tr, handler, spec["max_retry"])
     obs: list[Obs] = []
     crash = spec["crash"]
@@ -615,7 +919,7 @@ async def run_history(ctx: Any, spec: dict[str, Any], path: Any, catch: Any, han
     wfp: dict[str, Any] | None = spec.get("wf")
     wf: dh.WriterFaults | None = None
     if wfp is not None:
-        wf = dh.WriterFaults(wfp["plan"], wfp["yields"], wfp["pause"])
+        wf = WriterFaults11(wfp["plan"], wfp["yields"], wfp["pause"])
         wf.install(handler)
 
     async def writer_idle() -> None:
@@ -652,24 +956,47 @@ async def run_history(ctx: Any, spec: dict[str, Any], path: Any, catch: Any, han
             tr.arm(ex.events)
             try:
                 o.result = ("ok", await ecu.request(ex.req, make_cfg(ex)))
+                if ex.edit:
+                    o.rep = repr(o.result[1])
             except asyncio.CancelledError:
                 o.result = ("cancelled",)
                 raise
             except Exception as e:  # noqa: BLE001
                 o.result = ("exc", e)
+                o.rep = repr(e)
                 if crash[0] == "raise-mid" and crash[1] == i:
                     raise
             finally:
                 o.end = len(tr.log)
                 o.lost = catch.take_lost()
                 o.after = dict(ecu.state.__dict__)
+                if ex.edit and o.result is not None and o.result[0] != "cancelled":
+                    # request() is over (no suspension point since it returned / raised): the caller goes on working with its objects
+                    r = o.result[1] if o.result[0] == "ok" else getattr(o.result[1], "response", None)
+                    if ex.edit in ("response", "both") and r is not None:
+                        o.edited += scribble(r)
+                    if ex.edit in ("request", "both"):
+                        o.edited += scribble(ex.req)
         if crash[0] in ("cancel-between", "raise-between") and crash[1] == len(spec["ex"]):
             if crash[0] == "raise-between":
                 raise Boom()
             parked.set()
             await asyncio.get_running_loop().create_future()
 
-    task = asyncio.ensure_future(driver())
+    cut: dict[str, Any] = {}
+
+    def on_suspend(y: Any) -> None:
+        """(foreign-lock family) the caller is suspended on a future although it is inside request(), its request was written and
+        the client is not inside a transport call: it waits for something behind the exchange - the logging step.  It is cancelled there."""
+        if cut or not asyncio.isfuture(y) or not obs or obs[-1].result is not None or tr.inside:
+            return
+        o = obs[-1]
+        if not any(e[0] == "write" for e in tr.log[o.start :]):
+            return
+        cut.update({"exchange": o.i, "wire_entries_of_the_exchange": len(tr.log) - o.start, "foreign_transaction_open": fw is not None and fw.t1 is None})
+        task.cancel()
+
+    task: Any = asyncio.ensure_future(Watched(driver(), on_suspend) if lockp is not None else driver())
     phase = "closed-normally"
     if crash[0] in ("cancel-between", "cancel-mid"):
         waiter = asyncio.ensure_future((parked if crash[0] == "cancel-between" else tr.gate_reached).wait())
@@ -682,11 +1009,15 @@ async def run_history(ctx: Any, spec: dict[str, Any], path: Any, catch: Any, han
     try:
         await task
     except asyncio.CancelledError:
-        pass
+        if cut:
+            phase = "after-cancel"
+            spec["cut"] = cut
     except Boom:
         phase = "after-failure"
     except Exception:  # noqa: BLE001
         phase = "after-failure"
+    if fw is not None:
+        lock_obs["foreign_transaction_open_when_the_run_ended"] = fw.t1 is None
     qsize = handler._execute_queue.qsize() if handler._execute_queue is not None else 0
     if qsize:
         ctx.reach("disconnect.queue-not-empty")
@@ -699,16 +1030,25 @@ async def run_history(ctx: Any, spec: dict[str, Any], path: Any, catch: Any, han
     # (a disconnect() that does not return within the guard raises TimeoutError: harness error -> INCONCLUSIVE, to be reproduced by hand)
     if sess is not None:
         assert st is not None
-        if await close_watching_writer(handler):
+        why = await close_watching_writer(handler, watch, sum(1 for o in obs if o.ex.implicit))
+        if why:
             st["given_up"] = st.get("given_up", 0) + 1
-            spec["close"] = f"disconnect() had not returned {WRITER_ENDED_GRACE_S:.0f} s after the handler's writer task ended: closed by force"
-            ctx.reach("reuse.disconnect-given-up-after-the-writer-task-ended")
+            spec["close"] = why
+            spec["gave_up"] = why
+            ctx.reach("reuse.disconnect-given-up-after-the-writer-task-ended" if "INSERTs" not in why else "reuse.disconnect-given-up-writer-retries-without-end")
     elif lockp is not None:
         try:
             await take_lock()  # a run that ended before the chosen exchange: the foreign transaction starts right before the close
             assert fw is not None
+            if fw.hold_s is None:
+                # a burst: the foreign transaction lasts as long as the run, however long that takes on this machine, and ends
+                # shortly after disconnect() was called (no clock decides how many rows are waiting)
+                fw.hold_s = lock_obs["hold_s"] = BURST_RELEASE_S
+                fw.timer = asyncio.get_running_loop().call_later(BURST_RELEASE_S, fw.end)
             t_close = time.monotonic()
-            await asyncio.wait_for(handler.disconnect(), DISCONNECT_GUARD_S)
+            gave_up = await close_watching_writer(handler, watch, sum(1 for o in obs if o.ex.implicit))
+            if gave_up:
+                spec["gave_up"] = gave_up
             lock_obs.update({"disconnect_s": time.monotonic() - t_close, "returned_before_the_foreign_transaction_ended": fw.t1 is None,
                              "writer_retries": getattr(catch, "retries", 0)})
         except BaseException:
@@ -719,9 +1059,24 @@ async def run_history(ctx: Any, spec: dict[str, Any], path: Any, catch: Any, han
                 fw.end()
         spec["lock_obs"] = lock_obs
     else:
-        await asyncio.wait_for(handler.disconnect(), DISCONNECT_GUARD_S)
+        gave_up = await close_watching_writer(handler, watch, sum(1 for o in obs if o.ex.implicit))
+        if gave_up:
+            spec["gave_up"] = gave_up
     stray = catch.take_lost()
     rows = dh.read_rows(path)
+    if sess is None and earlier:
+        # the rows of the earlier run must still be there, unchanged; the history is judged on the rows that came with it
+        def ident0(r: dict[str, Any]) -> tuple[Any, ...]:
+            return (r["id"], r["run"], r["log_mode"], r["state"], r["request_pdu"], r["response_pdu"], r["exception"])
+
+        if [ident0(r) for r in rows[: len(earlier)]] != [ident0(r) for r in earlier]:
+            ctx.violation("rows/of-an-earlier-run-changed-when-a-run-was-appended", "rows the database held before the handler was connected are missing or different afterwards",
+                          describe(spec, None, tr.log, phase) | {"before": len(earlier), "after": len(rows)})
+            last = max((r["id"] for r in earlier), default=0)
+            rows = [r for r in rows if r["id"] > last]
+        else:
+            ctx.reach("pre-existing-database.rows-of-the-earlier-run-kept", len(earlier))
+            rows = rows[len(earlier) :]
     if sess is not None and st is not None:
         # rows of the sessions before this one must still be there, unchanged; this session is judged on the rows that came with it
         def ident(r: dict[str, Any]) -> tuple[Any, ...]:
@@ -786,10 +1141,21 @@ def _describe(spec: dict[str, Any], o: Obs | None, wire: list[tuple[Any, ...]], 
     if "reuse" in spec:
         w["family"] = "handler-reuse"
         w["reuse"] = dict(spec["reuse"]) | ({"close": spec["close"]} if "close" in spec else {})
+    if "burst" in spec:
+        w["burst"] = dict(spec["burst"])
+    if spec.get("pre"):
+        w["database"] = "copy of fixtures/c11-schema-4.0.sqlite (written by an earlier run of the released code); the run is appended"
+    if "gave_up" in spec:
+        w["close"] = spec["gave_up"]
+    if "cut" in spec:
+        w["cancelled_while_suspended_behind_its_exchange"] = spec["cut"]
     if o is not None:
         w.update({"index": o.i, "request_class": o.ex.cls, "tag": o.ex.tag, "implicit_logging": o.ex.implicit,
-                  "wire": [list(e) for e in wire[o.start : o.end]][:12], "result": repr(o.result[1])[:300] if o.result and len(o.result) > 1 else (o.result[0] if o.result else None),
+                  "wire": [list(e) for e in wire[o.start : o.end]][:12],
+                  "result": (o.rep or repr(o.result[1]))[:300] if o.result and len(o.result) > 1 else (o.result[0] if o.result else None),
                   "state_before": o.snapshot, "state_after": o.after, "warnings": o.lost})
+        if o.ex.edit:
+            w["caller_edited_after_request_returned"] = {"what": o.ex.edit, "assignments": o.edited}
     if row is not None:
         w["row"] = {k: row[k] for k in ("id", "run", "log_mode", "state", "request_pdu", "response_pdu", "request_time", "response_time", "exception")}
     return w
@@ -826,6 +1192,12 @@ def judge(ctx: Any, spec: dict[str, Any], obs: list[Obs], wire: list[tuple[Any, 
                 ctx.reach("crash.cancel-mid.after-retry-or-pending")
     if stray:
         ctx.violation("warning/outside-any-exchange", "'Could not log messages to database' outside a request", describe(spec, None, wire, phase) | {"warnings": stray})
+    pre = bool(spec.get("pre"))
+    if pre:
+        ctx.reach("pre-existing-database.histories")
+        ctx.reach(f"pre-existing-database.session-{phase}")
+    if "gave_up" in spec:
+        ctx.reach("disconnect.given-up." + ("writer-retries-without-end" if "INSERTs" in spec["gave_up"] else "writer-task-ended"))
 
     # ---- what the wire log implies
     shadow = {"session": 1, "security_access_level": None}
@@ -876,10 +1248,18 @@ def judge(ctx: Any, spec: dict[str, Any], obs: list[Obs], wire: list[tuple[Any, 
                 ctx.violation("warning/while-implicit-logging-off", "logging attempted although implicit logging is off", describe(spec, o, wire, phase))
             continue
         if oc == "cancelled":
-            optional = o
-            continue
+            # cancelled inside request().  If the transport had not delivered the reply that ends the exchange, the exchange was
+            # interrupted: its row is optional.  If it had (a final reply - not ResponsePending, not busy - was handed to the client
+            # before the cancellation arrived), the exchange was complete on the wire and the statement wants its row.
+            done = final_reply(w, o.written[0])  # type: ignore[attr-defined]
+            if done is None or (done[:1] == b"\x7f" and done[2:3] == b"\x21"):
+                optional = o
+                continue
+            o.final = done  # type: ignore[attr-defined]
+            o.complete_cancelled = True  # type: ignore[attr-defined]
+            ctx.reach("cancel.inside-request.after-the-final-reply-was-delivered")
         if o.lost:
-            r = o.result[1] if o.result[0] == "ok" else getattr(o.result[1], "response", None)
+            r = o.result[1] if o.result[0] == "ok" else getattr(o.result[1], "response", None) if o.result[0] == "exc" else None
             cause = lost_cause(o.lost[0])
             if cause == "state-integer-too-large-for-json":
                 # the client's session came from a ReadDataByIdentifier(F186) reply with a record of several KiB: every row is lost from then on
@@ -934,18 +1314,35 @@ def judge(ctx: Any, spec: dict[str, Any], obs: list[Obs], wire: list[tuple[Any, 
     sess: dict[str, Any] | None = spec.get("reuse")
     lock_retried = False
     if lock_obs is not None:
-        pct = f"{round(spec['lock']['frac'] * 100)}%-of-the-handlers-busy-timeout"
         behind = sum(1 for o in expected if o.i >= lock_obs["taken_before_exchange"])
         ctx.reach("foreign-lock.histories")
         ctx.reach(f"foreign-lock.session-{phase}")
-        ctx.reach(f"foreign-lock.hold:{pct}")
         ctx.reach("foreign-lock.rows-behind-the-lock", behind)
-        if behind >= 2:
-            ctx.reach(f"foreign-lock.several-rows-behind.hold:{pct}")
+        if spec["lock"]["frac"] is not None:
+            pct = f"{round(spec['lock']['frac'] * 100)}%-of-the-handlers-busy-timeout"
+            ctx.reach(f"foreign-lock.hold:{pct}")
+            if behind >= 2:
+                ctx.reach(f"foreign-lock.several-rows-behind.hold:{pct}")
         if lock_obs["disconnect_s"] >= 0.5 * lock_obs["hold_s"]:
             ctx.reach("foreign-lock.disconnect-had-to-wait-for-the-foreign-transaction")
         if lock_obs["returned_before_the_foreign_transaction_ended"]:
             ctx.reach("foreign-lock.disconnect-returned-before-the-foreign-transaction-ended")
+        if "burst" in spec:
+            # a burst: the rows of (nearly) all its exchanges are waiting behind the foreign transaction when the run ends
+            waiting = behind if lock_obs.get("foreign_transaction_open_when_the_run_ended") else 0
+            ctx.reach("foreign-lock.burst.histories")
+            ctx.reach(f"foreign-lock.burst.session-{phase}")
+            ctx.reach("foreign-lock.burst.exchanges", len(obs))
+            if waiting > 1000:
+                ctx.reach("foreign-lock.burst.more-than-1000-rows-waiting-when-the-run-ended")
+            if waiting > 2000:
+                ctx.reach("foreign-lock.burst.more-than-2000-rows-waiting-when-the-run-ended")
+            if waiting > 1000 and phase == "after-cancel":
+                ctx.reach("foreign-lock.burst.cancelled-with-more-than-1000-rows-waiting")
+            if "cut" not in spec:
+                ctx.reach("foreign-lock.burst.caller-never-waited-behind-its-exchange")
+        if "cut" in spec:
+            ctx.reach("foreign-lock.cancelled-while-suspended-behind-its-exchange")
         if lock_obs["writer_retries"]:
             # the lock outlasted the busy timeout: the unchanged writer queues the row again behind the others (see writer faults)
             ctx.reach("foreign-lock.writer-had-to-retry")
@@ -965,6 +1362,14 @@ def judge(ctx: Any, spec: dict[str, Any], obs: list[Obs], wire: list[tuple[Any, 
                 ctx.reach("reuse.third-session")
 
     def missing_key(o: Obs) -> str:
+        if getattr(o, "complete_cancelled", False):
+            return "row-missing/request-cancelled-after-its-final-reply-was-delivered" + ("/rows-waiting-behind-a-foreign-write-transaction" if lock_obs is not None else "")
+        if "gave_up" in spec and "INSERTs" in spec["gave_up"]:
+            return "row-missing/disconnect-does-not-return/writer-retries-without-end" + ("/database-of-an-earlier-run" if pre else "")
+        if "gave_up" in spec and not (sess is not None and sess["k"] > 0):
+            return "row-missing/disconnect-does-not-return/writer-task-ended" + ("/after-the-caller-edited-its-objects" if any(x.edited for x in obs) else "")
+        if pre and wf is None and lock_obs is None and not (sess is not None and sess["k"] > 0):
+            return f"row-missing/appended-to-the-database-of-an-earlier-run/{phase}"
         if lock_obs is not None:
             return f"row-missing/foreign-write-transaction-while-the-handler-is-closed/{phase}" + ("/writer-had-to-retry" if lock_retried else "")
         if sess is not None and sess["k"] > 0:
@@ -1029,12 +1434,25 @@ def judge(ctx: Any, spec: dict[str, Any], obs: list[Obs], wire: list[tuple[Any, 
 
     # ---- field by field
     for o, row in pairs:
+        if getattr(o, "complete_cancelled", False):
+            ctx.reach("rows.recorded-for-a-request-cancelled-after-its-final-reply")  # presence and position were judged; the caller never saw an outcome
+            continue
         ctx.evals()
         ctx.reach("rows.compared" if wf is None else "writer-fault.rows-compared")
         if lock_obs is not None:
             ctx.reach("foreign-lock.rows-compared")
         if sess is not None and sess["k"] > 0:
             ctx.reach(f"reuse.later-session.rows-compared.{sess['loop']}-event-loop")
+        if pre:
+            ctx.reach("pre-existing-database.rows-compared")
+        if o.edited:
+            ctx.reach("caller-edit.rows-compared")
+            if o.ex.edit in ("response", "both") and have_reply(o):
+                ctx.reach("caller-edit.rows-compared.response-object-edited")
+            if o.ex.edit in ("request", "both"):
+                ctx.reach("caller-edit.rows-compared.request-object-edited")
+            if wf is not None and wf_mapped and expected.index(o) in retried:
+                ctx.reach("caller-edit.rows-compared.row-retried-by-the-writer-after-the-edit")
         if row["run"] != scan_run:
             ctx.violation("row/wrong-run", "row does not belong to the scan run of this handler", describe(spec, o, wire, phase, row))
         fin: bytes | None = o.final  # type: ignore[attr-defined]
@@ -1049,7 +1467,7 @@ def judge(ctx: Any, spec: dict[str, Any], obs: list[Obs], wire: list[tuple[Any, 
                 r = o.result[1] if o.result[0] == "ok" else getattr(o.result[1], "response", None)  # type: ignore[index]
                 ctx.violation(f"response_pdu/not-exact/{not_exact_cause(fin, have, type(r).__name__)}",
                               "response_pdu is the re-serialised response object, not the bytes received", describe(spec, o, wire, phase, row) | {"received": fin, "stored": have})
-        want_exc = None if o.result[0] == "ok" else repr(o.result[1])  # type: ignore[index]
+        want_exc = None if o.result[0] == "ok" else o.rep  # type: ignore[index]  (repr() of the exception as request() raised it)
         if (row["exception"] is None) != (want_exc is None):
             ctx.violation(f"exception/{'missing' if want_exc else 'unexpected'}/{oc}", "exception column is NULL although request() raised (or the reverse)", describe(spec, o, wire, phase, row))
         elif want_exc is not None and row["exception"] != want_exc:
@@ -1088,6 +1506,8 @@ def gen_lock_history(hseed: str, tier: str) -> dict[str, Any]:
     """a history of the main family (all outcome classes, crash points, logging toggles) in which another connection opens a write
     transaction before exchange `at` and keeps it for a fraction of the busy timeout the handler configured for itself; at least two
     logged exchanges complete after that point, so their rows are waiting behind the foreign transaction when disconnect() is called"""
+    if hseed.rsplit("/", 1)[-1].startswith("b"):
+        return gen_burst_history(hseed, tier)
     fr = lock_fractions(tier)
     try:
         idx = int(hseed.rsplit("/", 1)[1])
@@ -1111,6 +1531,59 @@ def gen_lock_history(hseed: str, tier: str) -> dict[str, Any]:
         spec["lock"] = {"at": at, "frac": frac}
         return spec
     raise RuntimeError(f"no lock history for {hseed}")
+
+
+BURST_RELEASE_S = 0.3  # real seconds between the call of disconnect() and the end of the foreign transaction of a burst
+BURST_SIZES = [(1050, 1400), (1500, 2200), (2300, 3200), (200, 900)]
+BURST_END = ["cancel-between", "cancel-mid", "cancel-between", "none"]
+
+
+def gen_burst_history(hseed: str, tier: str) -> dict[str, Any]:
+    """a scan that outruns the writer: a few hundred to a few thousand quick exchanges (reads with positive and negative replies,
+    silence, session changes, tags, logging switched off for a few) while another connection holds a write transaction from one
+    of the first exchanges on, so that the rows of the whole burst are waiting when the run ends - cancelled between two
+    exchanges, cancelled while the last request awaits its reply, or normally.  (If the caller is ever found suspended behind an
+    exchange of the burst - see on_suspend in run_history - it is cancelled right there instead.)"""
+    from gallia.services.uds.core import service
+
+    try:
+        k = int(hseed.rsplit("/", 1)[-1][1:])
+    except ValueError:
+        k = 0
+    rng = random.Random("burst/" + hseed)
+    sizes = BURST_SIZES + ([(4000, 6500)] if tier != "quick" else [])
+    n = rng.randint(*sizes[k % len(sizes)])
+    exs: list[Ex] = []
+    for _ in range(n):
+        j = rng.random()
+        tag = "ANALYZE" if rng.random() < 0.1 else None
+        if j < 0.05:
+            lvl = rng.choice([1, 2, 3, 0x40])
+            req: Any = service.DiagnosticSessionControlRequest(lvl)
+            ev: list[tuple[Any, ...]] = [("reply", bytes([0x50, lvl, 0, 50, 1, 244]))]
+            cls = "DiagnosticSessionControlRequest"
+        else:
+            did = rng.randrange(0x0100, 0xF000)
+            req, cls = service.ReadDataByIdentifierRequest(did), "ReadDataByIdentifierRequest"
+            if j < 0.80:
+                ev = [("reply", b"\x62" + did.to_bytes(2, "big") + rng.randbytes(rng.randint(1, 6)))]
+            elif j < 0.92:
+                ev = [("reply", bytes([0x7F, 0x22, rng.choice(NRCS)]))]
+            elif j < 0.96:
+                ev = [("reply", b"\x7f\x22\x78"), ("reply", b"\x62" + did.to_bytes(2, "big") + b"\x00")]
+            else:
+                ev = [("T",)]
+        exs.append(Ex(req, cls, ev, tag, rng.random() < 0.97, None))
+    end = BURST_END[k % len(BURST_END)]
+    crash: tuple[Any, ...] = ("none",)
+    if end == "cancel-between":
+        crash = ("cancel-between", n)
+    elif end == "cancel-mid":
+        exs[-1].events = [("G",)] + exs[-1].events
+        crash = ("cancel-mid", n - 1, 0)
+    plan_edits(exs, hseed)
+    return {"hseed": hseed, "max_retry": 0, "ex": exs, "crash": crash, "pre": wants_fixture(hseed), "lock": {"at": rng.randint(0, 12), "frac": None},
+            "burst": {"exchanges": n, "end": end}}
 
 
 async def run_lock_waves(ctx: Any, seeds: list[str], scratch: Any, wave: int) -> None:
@@ -1167,7 +1640,10 @@ def run_reuse(ctx: Any, hseed: str, path: Any, catch: dh.Catcher, st: dict[str, 
         else:
             groups.append([spec])
     handler = DBHandler(path)  # created outside any event loop
-    st["rows"] = []
+    # in some of the cases the file exists already (an earlier run of the released code wrote it): its rows are "rows of an earlier session"
+    st["rows"] = plant_fixture(path) if sessions[0].get("pre") else []
+    for spec in sessions:
+        spec["pre"] = sessions[0].get("pre")
     before = st.get("given_up", 0)
 
     async def group(specs: list[dict[str, Any]]) -> None:
@@ -2106,7 +2582,13 @@ async def arun(ctx: Any, params: dict[str, Any], only: str | None = None) -> Non
         await run_scans(ctx, seeds, scratch, catch)
         return
     if params["mode"] == "lock":
-        await run_lock_waves(ctx, seeds, scratch, int(params.get("wave", 18)))
+        bursts = [f"{params['base']}/b{i}" for i in range(int(params.get("burst", 0)))] if not only else []
+        per_wave = -(-len(bursts) // max(1, -(-len(seeds) // int(params.get("wave", 18))))) if bursts else 0  # the bursts are spread over the waves
+        wave = int(params.get("wave", 18))
+        mixed: list[str] = []
+        for b in range(0, len(seeds), wave):
+            mixed += seeds[b : b + wave] + bursts[(b // wave) * per_wave : (b // wave + 1) * per_wave]
+        await run_lock_waves(ctx, mixed, scratch, wave + per_wave)
         return
     for n, hseed in enumerate(seeds):
         if ctx.out_of_time():
